@@ -120,6 +120,20 @@ def decode_fp(ty, hexbits):
     return ("num", -val if sign else val)
 
 
+def fr_str(f):
+    """Short exact spelling of a dyadic rational (Fraction.__str__ can exceed Python's digit limit for
+    long double denormals): integer when small, else odd*2^e."""
+    if f is None:
+        return "-"
+    n, d = f.numerator, f.denominator
+    if d == 1 and abs(n) < 10 ** 40:
+        return str(n)
+    if n == 0:
+        return "0"
+    a = (abs(n) & -abs(n)).bit_length() - 1
+    return "%d*2^%d" % (n >> a, a - (d.bit_length() - 1))
+
+
 def trunc_frac(f):
     return int(f) if f >= 0 else -int(-f)
 
@@ -204,11 +218,11 @@ def confirm(v):
     if cat == "fp-int":
         ok_cast = fp_castable(yk, yv, t)
         if kind == "uncastable-not-lossy":
-            return (not lib["lossy"] and not ok_cast), "py castable=%s y=%s" % (ok_cast, yk if yv is None else yv)
+            return (not lib["lossy"] and not ok_cast), "py castable=%s y=%s" % (ok_cast, yk if yv is None else fr_str(yv))
         if kind == "cleared-truncates":
-            return (not lib["lossy"] and ok_cast and yv.denominator != 1), "py y=%s" % yv
+            return (not lib["lossy"] and ok_cast and yv.denominator != 1), "py y=%s" % fr_str(yv)
         if kind == "cleared-wrong-value":
-            return (ok_cast and yv.denominator == 1 and str(int(yv)) != v.get("got", "")), "py y=%s" % yv
+            return (ok_cast and yv.denominator == 1 and str(int(yv)) != v.get("got", "")), "py y=%s" % fr_str(yv)
         return False, "unexpected kind for fp-int"
     # fp-fp
     xk, xv = decode_fp(s, v["xbits"])
@@ -222,3 +236,24 @@ def confirm(v):
     if kind == "cleared-wrong-value":
         return True, "bit compare of library results (no second route needed)"
     return False, "unexpected kind for fp-fp"
+
+
+def selfcheck():
+    """Start-up validation of this module's own tables (no Au code involved)."""
+    assert common("int8_t", "int8_t") == "int8_t" and common("int8_t", "uint8_t") == "int32_t"
+    assert common("int64_t", "uint64_t") == "uint64_t" and common("uint32_t", "int64_t") == "int64_t"
+    assert common("float", "int64_t") == "float" and common("double", "float") == "double"
+    assert decode_fp("float", "4f000000") == ("num", Fraction(2 ** 31))
+    assert decode_fp("double", "43f0000000000000") == ("num", Fraction(2 ** 64))
+    assert decode_fp("long double", "403e8000000000000000") == ("num", Fraction(2 ** 63))
+    assert decode_fp("long double", "00000000000000000001") == ("num", Fraction(1, 2 ** 16445))
+    assert decode_fp("float", "00000001") == ("num", Fraction(1, 2 ** 149))
+    assert decode_fp("float", "ff800000") == ("-inf", None) and decode_fp("double", "7ff8000000000001")[0] == "nan"
+    assert not fp_castable("num", Fraction(2 ** 31), "int32_t") and fp_castable("num", Fraction(-2 ** 31), "int32_t")
+    assert fp_castable("num", Fraction(-1, 2), "uint8_t") and fp_castable("num", Fraction(511, 2), "uint8_t")
+    assert not fp_castable("num", Fraction(256), "uint8_t") and fp_castable("num", Fraction(-257, 2), "int8_t")
+    st = stages_int("int8_t", "uint8_t", 3, 2, -2)
+    assert st["st1_in"] and st["prod_in_p"] and not st["trunc"] and not st["st3_in"] and st["leaves"]
+    st = stages_int("int32_t", "int32_t", 2, 1, 2 ** 30)
+    assert not st["prod_in_p"] and not st["defined"]
+    assert fp_max("float") == Fraction(2 ** 128 - 2 ** 104) and fr_str(Fraction(3, 2 ** 16445)) == "3*2^-16445"
